@@ -128,6 +128,10 @@ structure WF (w : World) : Prop where
   aone : ∀ a ∈ w.arecs, w.aidg.live.countP (fun i => i.obj == a.1) = 1
   paths : (w.frecs.map (·.2.path)).Nodup
 
+/-- the use count of DDGROUP is not part of the invariant -/
+theorem dd_wf (w : World) (n : Nat) (h : WF w) : WF (setDd w n) :=
+  ⟨h.fkeys, h.akeys, h.fptr, h.aptr, h.fobj, h.aobj, h.refc, h.aone, h.paths⟩
+
 theorem setF_paths (w : World) (p : Nat) (r r0 : FRec) (hk : (w.frecs.map (·.1)).Nodup) (h0 : (p, r0) ∈ w.frecs) (hp : r.path = r0.path) :
     (setF w p r).frecs.map (·.2.path) = w.frecs.map (·.2.path) := by
   simp only [setF, List.map_map]
@@ -208,6 +212,7 @@ theorem hopen_wf (w : World) (path acc : Nat) (osOk : Bool) (h : WF w) : WF (hop
       split
       · exact h
       · -- a new record at the fresh pointer
+        apply dd_wf
         have hfresh : ∀ e ∈ w.frecs, e.1 ≠ w.nobj := fun e he => Nat.ne_of_lt (h.fptr e he)
         have hnolive : w.fidg.live.countP (fun i => i.obj == w.nobj) = 0 := by
           rw [List.countP_eq_zero]
@@ -298,6 +303,7 @@ theorem hcloseRec_wf (w : World) (id p : Nat) (r : FRec) (h : WF w) (hg : ATOM_T
     split
     · exact h
     · -- last reference: the record goes away
+      apply dd_wf
       obtain ⟨r1, r2, r3, r4, r5, r6⟩ := aRem_fid (delF w p) id hg
       simp only [delF_fidg, delF_aidg, delF_arecs, delF_nobj, delF_leaked] at r1 r2 r4 r5 r6
       have hr1 : r.refcount = 1 := by simpa using h1
@@ -562,10 +568,19 @@ theorem nextRead_state' (cfg : Cfg) (w : World) (id : Nat) (f : Bool) : (nextRea
   unfold nextRead; repeat' split
   all_goals rfl
 
+theorem hopenBad_wf (w : World) (path acc : Nat) (st : OpenStage) (h : WF w) : WF (hopenBad w path acc st).1 := by
+  unfold hopenBad
+  repeat' split
+  all_goals first
+    | exact h
+    | exact hopen_wf w path acc _ h
+    | exact dd_wf _ _ h
+
 theorem step_wf (cfg : Cfg) (hk : cfg.kindChecked = true) (w : World) (op : Op) (h : WF w) : WF (step cfg w op).1 := by
   cases op with
   | nextread id f => simp only [step, nextRead_state']; exact h
   | hopen p a o => exact hopen_wf w p a o h
+  | hopenbad p a st => exact hopenBad_wf w p a st h
   | hclose id => exact hclose_wf cfg hk w id h
   | startaccess id f wr => exact startAccess_wf cfg hk w id f wr h
   | endaccess id => exact endAccess_wf cfg hk w id h
@@ -587,6 +602,9 @@ structure WFA (w : World) : Prop where
   fissued : ∀ i ∈ w.fidg.live, ∃ k, k < w.fidg.nextid ∧ i.id = MAKE_ATOM FIDGROUP k
   fnodup : w.fidg.live.Pairwise (fun a b => a.id ≠ b.id)
   link : ∀ a ∈ w.arecs, ∀ i ∈ w.fidg.live, i.id = a.2.fileId → i.obj = a.2.file
+
+theorem dd_wfa (w : World) (n : Nat) (h : WFA w) : WFA (setDd w n) :=
+  ⟨h.att, h.afile, h.lfile, h.issued, h.fissued, h.fnodup, h.link⟩
 
 theorem init_wfa : WFA World.init := by
   refine ⟨?_, ?_, ?_, ?_, ?_, by simp [World.init], ?_⟩ <;> intro x hx <;> simp [World.init] at hx
@@ -657,7 +675,8 @@ theorem hopen_wfa (w : World) (path acc : Nat) (osOk : Bool) (hw : WF w) (hs : w
       · exact h
     · split
       · exact h
-      · have hfresh : ∀ e ∈ w.frecs, e.1 ≠ w.nobj := fun e he => Nat.ne_of_lt (hw.fptr e he)
+      · apply dd_wfa
+        have hfresh : ∀ e ∈ w.frecs, e.1 ≠ w.nobj := fun e he => Nat.ne_of_lt (hw.fptr e he)
         refine regF_wfa _ w.nobj hs ⟨?_, ?_, ?_, h.issued, h.fissued, h.fnodup, h.link⟩ ⟨(w.nobj, ⟨path, if acc == DFACC_CREATE then DFACC_ALL else acc ||| DFACC_READ, 1, 0⟩), by simp, rfl⟩
         · intro e he
           simp only [List.mem_append, List.mem_singleton] at he
@@ -705,6 +724,7 @@ theorem hcloseRec_wfa (w : World) (id p : Nat) (r : FRec) (hw : WF w) (h : WFA w
   · split
     · exact h
     · rename_i hat
+      apply dd_wfa
       have hat0 : r.attach = 0 := by omega
       have h0 := h.att (p, r) hmem
       simp only [hat0] at h0
@@ -926,17 +946,25 @@ theorem nextRead_state (cfg : Cfg) (w : World) (id : Nat) (f : Bool) : (nextRead
   unfold nextRead; repeat' split
   all_goals rfl
 
+theorem hopen_nextid (w : World) (p a : Nat) (o : Bool) : (hopen w p a o).1.fidg.nextid ≤ w.fidg.nextid + 1 := by
+  simp only [hopen]
+  repeat' split
+  all_goals simp [regF, setDd]
+
 theorem step_nextid (cfg : Cfg) (w : World) (op : Op) : (step cfg w op).1.fidg.nextid ≤ w.fidg.nextid + 1 := by
   cases op with
   | nextread id f => simp [step, nextRead_state]
-  | hopen p a o =>
-    simp only [step, hopen]
+  | hopen p a o => exact hopen_nextid w p a o
+  | hopenbad p a st =>
+    simp only [step, hopenBad]
     repeat' split
-    all_goals simp [regF]
+    all_goals first
+      | exact hopen_nextid w p a _
+      | simp [setDd]
   | hclose id =>
     simp only [step, hclose, hcloseRec]
     repeat' split
-    all_goals (simp only [aRem]; repeat' split)
+    all_goals (simp only [aRem, setDd]; repeat' split)
     all_goals simp
   | startaccess id f wr =>
     simp only [step, startAccess]
@@ -955,6 +983,13 @@ theorem step_wfa (cfg : Cfg) (hk : cfg.kindChecked = true) (w : World) (op : Op)
   cases op with
   | nextread id f => simp only [step, nextRead_state]; exact h
   | hopen p a o => exact hopen_wfa w p a o hw hs h
+  | hopenbad p a st =>
+    simp only [step, hopenBad]
+    repeat' split
+    all_goals first
+      | exact h
+      | exact hopen_wfa w p a _ hw hs h
+      | exact dd_wfa _ _ h
   | hclose id => exact hclose_wfa cfg hk w id hw h
   | startaccess id f wr => exact startAccess_wfa cfg hk w id f wr hw h
   | endaccess id => exact endAccess_wfa cfg hk w id hw h
@@ -1099,6 +1134,18 @@ theorem aRem_trace (w : World) (id : Nat) : (aRem w id).trace = w.trace ++ [.rem
   · rfl
   · split <;> rfl
 
+theorem aRem_frecs (w : World) (id : Nat) : (aRem w id).frecs = w.frecs := by
+  unfold aRem; simp only []
+  split
+  · rfl
+  · split <;> rfl
+
+theorem aRem_ddUse (w : World) (id : Nat) : (aRem w id).ddUse = w.ddUse := by
+  unfold aRem; simp only []
+  split
+  · rfl
+  · split <;> rfl
+
 theorem aRem_counts (w : World) (id : Nat) : (aRem w id).fidg.count = w.fidg.count ∧ (aRem w id).aidg.count = w.aidg.count := by
   unfold aRem; simp only []
   split
@@ -1127,21 +1174,34 @@ theorem init_traceOk : TraceOk World.init := by
     · subst hg2; simp [World.atoms, upd, SState.init, hne]
     · simp [World.atoms, upd, SState.init, hg, hg2]
 
+theorem dd_traceOk {w : World} (n : Nat) (h : TraceOk w) : TraceOk (setDd w n) := traceOk_same h rfl rfl rfl
+
+theorem hopen_traceOk (w : World) (p a : Nat) (o : Bool) (h : TraceOk w) : TraceOk (hopen w p a o).1 := by
+  simp only [hopen]
+  repeat' split
+  all_goals first
+    | exact h
+    | (apply traceOk_regF; exact traceOk_same h rfl rfl rfl)
+    | (apply dd_traceOk; apply traceOk_regF; exact traceOk_same h rfl rfl rfl)
+
 theorem step_traceOk (cfg : Cfg) (w : World) (op : Op) (h : TraceOk w) : TraceOk (step cfg w op).1 := by
   cases op with
   | nextread id f => simp only [step, nextRead_state]; exact h
-  | hopen p a o =>
-    simp only [step, hopen]
+  | hopen p a o => exact hopen_traceOk w p a o h
+  | hopenbad p a st =>
+    simp only [step, hopenBad]
     repeat' split
     all_goals first
       | exact h
-      | (apply traceOk_regF; exact traceOk_same h rfl rfl rfl)
+      | exact hopen_traceOk w p a _ h
+      | exact dd_traceOk _ h
   | hclose id =>
     simp only [step, hclose, hcloseRec]
     repeat' split
     all_goals first
       | exact h
       | (apply traceOk_aRem; exact traceOk_same h rfl rfl rfl)
+      | (apply dd_traceOk; apply traceOk_aRem; exact traceOk_same h rfl rfl rfl)
   | startaccess id f wr =>
     simp only [step, startAccess]
     repeat' split
@@ -1186,6 +1246,8 @@ structure NoOrphan (w : World) : Prop where
   noleak : w.leaked = []
   fpos : ∀ e ∈ w.frecs, 1 ≤ e.1
   npos : 1 ≤ w.nobj
+
+theorem dd_noOrphan (w : World) (n : Nat) (h : NoOrphan w) : NoOrphan (setDd w n) := ⟨h.alive, h.noleak, h.fpos, h.npos⟩
 
 theorem init_noOrphan : NoOrphan World.init := by
   refine ⟨?_, rfl, ?_, by simp [World.init]⟩ <;> intro x hx <;> simp [World.init] at hx
@@ -1232,7 +1294,8 @@ theorem hopen_noOrphan (w : World) (path acc : Nat) (osOk : Bool) (hw : WF w) (h
       · exact h
     · split
       · exact h
-      · refine ⟨?_, h.noleak, ?_, by simp only [regF]; have := h.npos; omega⟩
+      · apply dd_noOrphan
+        refine ⟨?_, h.noleak, ?_, by simp only [regF]; have := h.npos; omega⟩
         · intro a ha
           obtain ⟨i, hi, hid⟩ := h.alive a ha
           exact ⟨i, by simp [regF, hi], hid⟩
@@ -1269,7 +1332,8 @@ theorem hclose_noOrphan (cfg : Cfg) (hk : cfg.kindChecked = true) (hc : cfg.clos
       split
       · split
         · exact h
-        · obtain ⟨r1, r2, r3, r4, r5, r6⟩ := aRem_fid (delF w p) id hg
+        · apply dd_noOrphan
+          obtain ⟨r1, r2, r3, r4, r5, r6⟩ := aRem_fid (delF w p) id hg
           simp only [delF_fidg, delF_aidg, delF_arecs, delF_nobj, delF_leaked] at r1 r2 r4 r5 r6
           refine ⟨?_, by rw [r6]; exact h.noleak, ?_, by rw [r5]; exact h.npos⟩
           · intro a ha; rw [r4] at ha; rw [r1]; exact keep a ha
@@ -1352,6 +1416,13 @@ theorem step_noOrphan (cfg : Cfg) (hk : cfg.kindChecked = true) (hc : cfg.closeC
   cases op with
   | nextread id f => simp only [step, nextRead_state]; exact h
   | hopen p a o => exact hopen_noOrphan w p a o hw h
+  | hopenbad p a st =>
+    simp only [step, hopenBad]
+    repeat' split
+    all_goals first
+      | exact h
+      | exact hopen_noOrphan w p a _ hw h
+      | exact dd_noOrphan _ _ h
   | hclose id => exact hclose_noOrphan cfg hk hc w id h
   | startaccess id f wr => exact startAccess_noOrphan cfg hk w id f wr h
   | endaccess id => exact endAccess_noOrphan cfg hk w id hw ha h
